@@ -2,6 +2,7 @@
 import json
 import random
 
+import c05_decl as D
 import common as C
 import values as V
 
@@ -48,6 +49,78 @@ def supported(e):
     return t in SUPPORTED_TAGS
 
 
+def shown(e, cap=300):
+    t = D.show(e)
+    return t if len(t) <= cap else t[:cap] + ".."
+
+
+def differing_field(v1, v2):
+    """Two values of the same shape: the innermost dataclass field whose values differ, as (holder, field name)."""
+    t1, t2 = v1[0], v2[0]
+    if t1 == t2 == "data" and [n for (n, _) in v1[2]] == [n for (n, _) in v2[2]]:
+        for (n, a), (_, b) in zip(v1[2], v2[2]):
+            if V.canon(a) != V.canon(b):
+                return differing_field(a, b) or (v1, n)
+    elif t1 in ("list", "tuple") and t2 in ("list", "tuple") and len(v1[1]) == len(v2[1]):
+        for a, b in zip(v1[1], v2[1]):
+            if V.canon(a) != V.canon(b):
+                return differing_field(a, b)
+    elif t1 in ("dict", "odict") and t2 in ("dict", "odict") and len(v1[1]) == len(v2[1]):
+        for (ka, a), (kb, b) in zip(v1[1], v2[1]):
+            if V.canon(ka) != V.canon(kb):
+                return differing_field(ka, kb)
+            if V.canon(a) != V.canon(b):
+                return differing_field(a, b)
+    return None
+
+
+def collision_key(v1, v2):
+    """Class of a collision between two values with different canonical forms: the classes of values.py (the known
+    confusions of the encoding), refined for values that differ in one field of a declared dataclass."""
+    cls = V.collision_class(V.canon(v1), V.canon(v2))
+    if "UNCLASSIFIED" in cls:
+        df = differing_field(v1, v2)
+        if df is not None:
+            # one class per leading declared property of the ignored field (the message shows all of them)
+            cls = "collide:dataclass-field-ignored:" + D.field_flags(*df).split(",")[0]
+    return cls
+
+
+# A dataclass instance with a declared field that never got a value (init=False, no default, not assigned) is a legal
+# Python object but not a value of the model (a field without a value): its outcome is recorded as an observation;
+# set to True to report a low-level exception on it as a totality violation.
+UNSET_FIELD_IS_VIOLATION = True
+
+
+def keep_pairs(rep, tier, rng, groups, sig):
+    """End to end on the real store: keep(path, f, a) then keep(path, f, b) for unequal a, b of one declared class must
+    return f(b) (plain execution), never the result computed for a."""
+    pairs = []
+    for (fam, g) in groups:
+        if fam.startswith("same:"):
+            continue
+        ok = [v for v in g if sig(v) is not None and V.canon(v) is not None]
+        cand = [(ok[0], w) for w in ok[1:] if V.canon(w) != V.canon(ok[0])] if ok else []
+        if tier == "quick" and len(cand) > 1:
+            cand = [rng.choice(cand)]
+        pairs += [(fam, a, b) for (a, b) in cand]
+    outs = C.run_driver("drive_c05_keep.py", {"pairs": [[a, b] for (_, a, b) in pairs]}) if pairs else []
+    kinds = {}
+    for (fam, a, b), o in zip(pairs, outs):
+        rep.case("keep:" + json.dumps([a, b], sort_keys=True))
+        kinds[o["r"]] = kinds.get(o["r"], 0) + 1
+        replay = {"pair": [a, b], "family": fam, "impl": o, "cmd": "harness/drive_c05_keep.py"}
+        if o["r"] != "ok":
+            rep.violation("keep-fails-on-hashable-values:" + o["r"], f"dds.keep fails ({o}) on values that dds_hash accepts: "
+                          f"{shown(a)} / {shown(b)}", replay)
+        elif o["r1"] != o["p1"] or o["r2"] != o["p2"]:
+            cls = collision_key(a, b)
+            key = cls if any(f.get("key") == cls for f in rep.known) else "stale-result-served:" + cls.split(":", 1)[1]
+            rep.violation(key, f"keep(p, f, a) then keep(p, f, b) returned {o['r2']!r} for b (plain execution: {o['p2']!r}) with "
+                          f"a = {shown(a)}, b = {shown(b)}", replay)
+    return {"pairs": len(pairs), "outcomes": kinds}
+
+
 def low_class(case, o):
     """Key of a low-level exception on a supported value (totality violation)."""
     return f"lowlevel:{o['exc']}"
@@ -77,10 +150,10 @@ def run_cases(rep, cases, label):
         ia = impl_str(a)
         if ia != m:
             rep.violation("model-mismatch:" + (ia.split(":")[0] + "-vs-" + m.split(":")[0]),
-                          f"implementation and Coq model disagree: impl={ia} model={m}",
+                          f"implementation and Coq model disagree on {shown(c['v'])}: impl={ia} model={m}",
                           {"case": c, "impl": ia, "model": m, "replay_cmd": "./check C05 --replay <this file>"})
         if a["r"] == "low" and supported(c["v"]):
-            rep.violation(low_class(c, a), f"low-level exception {a['exc']} escapes dds_hash on a supported value",
+            rep.violation(low_class(c, a), f"low-level exception {a['exc']} escapes dds_hash on the supported value {shown(c['v'])}",
                           {"case": c, "impl": ia})
     return out0
 
@@ -89,15 +162,27 @@ def run(rep, tier, seed, proof_ok):
     rng = random.Random(seed)
     rep.rule = ("values enumerated over an alphabet of boundary atoms (ints around +-2^31 and beyond, signed zeros, nan/inf, "
                 "empty/separator/marker/4-byte/8-byte/hex-join strings, lone surrogate, paths, dates, unsupported types), all "
-                "width<=1 and sampled width-2 sequences, dicts, dataclasses, constructed confusions, random nesting<=4; each run in two "
+                "width<=1 and sampled width-2 sequences, dicts, dataclasses, constructed confusions, random nesting<=4; DECLARED classes "
+                "(harness/c05_decl.py: dataclasses written as source - fields with init=False set in __post_init__ from an InitVar / a "
+                "constant / another field or assigned after construction, default / default_factory, compare / repr / hash / kw_only "
+                "flags, ClassVar / InitVar / class attributes / methods / properties / non-field attributes (not fields), frozen / slots "
+                "/ eq / order / unsafe_hash / kw_only classes, inheritance chains with redeclared fields, private / unicode / marker-like "
+                "field names, nesting in fields / lists / dicts / dict keys; namedtuples, subclasses of builtin types, defaultdict / "
+                "Counter, enum members; nested empty containers), in groups of one class whose members differ in exactly one field of "
+                "dataclasses.fields() (systematic families + random declarations); the expected field view comes from a model of "
+                "the dataclass semantics re-checked in the driver against fields() / getattr / asdict; each run in two "
                 "processes (PYTHONHASHSEED 0 / 12345) and in the Coq model (vm_compute, executable SHA-256); distinct = distinct "
-                "encoded (value, option) case; non-trivial = not a bare unsupported atom; all pairs grouped by signature for collisions")
+                "encoded (value, option) case; non-trivial = not a bare unsupported atom; all pairs grouped by signature for collisions; one "
+                "pair per declared group (all pairs in the thorough tier) end to end: keep(p, f, a) then keep(p, f, b) on a local store "
+                "against the plain execution f(b)")
     rep.assumptions += [
         "SHA-256 collision resistance (theorems conclude '... or H_collision H')",
         "RecursionError for nesting beyond the interpreter limit is outside the model",
         "repr() of datetime objects and str() of PurePosixPath are taken from CPython (generator side)",
     ]
     vals = V.enumerate_values(rng, tier if proof_ok else "thorough")
+    dvals, dgroups = D.enumerate_declared(rng, tier if proof_ok else "thorough")
+    vals = vals + dvals
     cases = [{"v": v, "max": "default"} for v in vals]
     # option variations on a sample
     for v in rng.sample(vals, 120 if tier == "quick" else 800):
@@ -112,9 +197,19 @@ def run(rep, tier, seed, proof_ok):
         k = o["r"] if o["r"] != "dds" else "dds:" + o["code"]
         k = k if o["r"] != "low" else "low:" + o["exc"]
         kinds[k] = kinds.get(k, 0) + 1
+    fams = {}
+    for (fam, g) in dgroups:
+        fam = "random" if fam.startswith("random") else fam
+        fams[fam] = fams.get(fam, 0) + len(g)
     rep.extra["input_distribution"] = {"top_level_kind": dist, "outcome_kind": kinds,
                                        "max_depth": max(V.depth(c["v"]) for c in cases),
-                                       "max_size": max(V.size(c["v"]) for c in cases)}
+                                       "max_size": max(V.size(c["v"]) for c in cases),
+                                       "declared_classes": {"values": len(dvals), "groups": len(dgroups),
+                                                            "random_declarations": sum(1 for (f, _) in dgroups if f.startswith("random")),
+                                                            "random_by_kind_of_the_differing_field": dict(
+                                                                (k, sum(1 for (f, _) in dgroups if f == k)) for k in sorted(
+                                                                    set(f for (f, _) in dgroups if f.startswith("random")))),
+                                                            "values_by_family": fams}}
     for c in cases[:3] + cases[len(vals) // 2: len(vals) // 2 + 2]:
         rep.sample({"value": c["v"], "max_sequence_size": c["max"]})
     # collision search: all pairs, grouped by signature (default option only)
@@ -131,19 +226,39 @@ def run(rep, tier, seed, proof_ok):
             for i in range(len(items)):
                 for j in range(i + 1, len(items)):
                     ncoll += 1
-                    cls = V.collision_class(items[i][0], items[j][0])
-                    rep.violation(cls, f"two values that differ beyond the documented identifications share signature {h[:12]}..",
+                    cls = collision_key(items[i][1], items[j][1])
+                    rep.violation(cls, f"two values that differ beyond the documented identifications share signature {h[:12]}..: "
+                                  f"{shown(items[i][1])} / {shown(items[j][1])}",
                                   {"v1": items[i][1], "v2": items[j][1], "signature": h})
     rep.extra["collision_search"] = {"signatures": len(groups), "colliding_pairs_beyond_documented": ncoll}
+    # declared classes, end to end: the result computed for one value is never served for the other
+    sigs = dict((json.dumps(c["v"], sort_keys=True), o["h"]) for c, o in zip(cases[:len(vals)], outs[:len(vals)]) if o["r"] == "ok")
+    rep.extra["keep_pairs"] = keep_pairs(rep, tier, rng, dgroups, lambda v: sigs.get(json.dumps(v, sort_keys=True)))
+    # observation: a declared field without a value
+    probes = D.unset_probes()
+    pouts = C.run_driver("drive_c05.py", {"cases": [{"v": v, "max": "default"} for v in probes]})
+    rep.extra["observations"] = {"dataclass_with_unset_init_false_field": [
+        {"value": shown(v) + " + field " + ",".join(v[3]["unset"]) + " declared with init=False and never assigned", "outcome": impl_str(o)}
+        for v, o in zip(probes, pouts)]}
+    for v, o in zip(probes, pouts):
+        if UNSET_FIELD_IS_VIOLATION and o["r"] == "low":
+            rep.violation("lowlevel-unset-field:" + o["exc"], f"low-level exception {o['exc']} escapes dds_hash on {shown(v)} whose field "
+                          "was never assigned", {"case": {"v": v, "max": "default"}, "impl": impl_str(o)})
 
 
 def replay(path):
     r = json.load(open(path))["replay"]
+    if "pair" in r:
+        out = C.run_driver("drive_c05_keep.py", {"pairs": [r["pair"]]})
+        print(json.dumps({"pair": r["pair"], "impl": out}, indent=1))
+        bad = out[0]["r"] != "ok" or out[0]["r1"] != out[0]["p1"] or out[0]["r2"] != out[0]["p2"]
+        print("REPRODUCED" if bad else "not reproduced")
+        return 1 if bad else 0
     cases = [r["case"]] if "case" in r else [{"v": r["v1"], "max": "default"}, {"v": r["v2"], "max": "default"}]
     out = C.run_driver("drive_c05.py", {"cases": cases})
     print(json.dumps({"cases": cases, "impl": out}, indent=1))
     if "case" in r:
-        bad = out[0]["r"] == "low"
+        bad = out[0]["r"] == "low" or ("model" in r and impl_str(out[0]) != r["model"])
     else:
         bad = out[0].get("h") == out[1].get("h")
     print("REPRODUCED" if bad else "not reproduced")
